@@ -56,6 +56,8 @@ structure TrInfo where
   toks : List Nat                   -- token numbers the block may assign (999999: the token's own first byte)
   sw : List (Nat × List Nat)        -- `switch lex.act`: per case, the token numbers it may assign
   next : Nat                        -- `goto stK` at its end (0: none)
+  ffs : List Nat := []              -- ids of the free-floating tokens the block attaches (addFreeFloatingToken)
+  hold : Bool := false              -- the block moves p back: the byte that led to it is read again
   deriving Repr
 
 structure ScanRes where
